@@ -56,6 +56,8 @@ def judge(ctx, fns, host_spelling, host, exp, tag, wit):
             continue
         ctx.ev()
         ctx.out((tag, name, host_spelling, got))
+        if tag == "bundled":
+            ctx.remember({"split": "ural.tld:split_suffix", "domain": "ural.tld:get_domain_name", "valid": "ural.tld:has_valid_suffix"}[name], [host_spelling], {}, list(got) if isinstance(got, tuple) else got, cap=4000)
         if isinstance(got, list):
             got = tuple(got)
         if got != want:
